@@ -300,4 +300,54 @@ def evOk1 (st : St) : Ev → Bool
   | .filt f => st.filters.contains f
   | .tag t => st.tags.any (·.1 == t)
 
+/-! ## The hypothesis the `seen` de-duplication actually needs (sentence 2) -/
+
+mutual
+/-- Names of SHARED partials (`include`) in the expanded tree. -/
+def inclNamesNode : Node → List Name
+  | .plain _ cs => inclNamesNodes cs
+  | .part _ iso name _ _ body => (if iso then [] else [name]) ++ inclNamesNodes body
+def inclNamesNodes : Nodes → List Name
+  | .nil => []
+  | .cons n ns => inclNamesNode n ++ inclNamesNodes ns
+end
+
+mutual
+/-- Names of ISOLATED partials (`render`) in the expanded tree. -/
+def isoNamesNode : Node → List Name
+  | .plain _ cs => isoNamesNodes cs
+  | .part _ iso name _ _ body => (if iso then [name] else []) ++ isoNamesNodes body
+def isoNamesNodes : Nodes → List Name
+  | .nil => []
+  | .cons n ns => isoNamesNode n ++ isoNamesNodes ns
+end
+
+mutual
+/-- (name, argument names, bound variable) of every ISOLATED partial node. -/
+def isoTriplesNode : Node → List (Name × List Name × Option Name)
+  | .plain _ cs => isoTriplesNodes cs
+  | .part _ iso name args bound body => (if iso then [(name, args, bound)] else []) ++ isoTriplesNodes body
+def isoTriplesNodes : Nodes → List (Name × List Name × Option Name)
+  | .nil => []
+  | .cons n ns => isoTriplesNode n ++ isoTriplesNodes ns
+end
+
+/-- The bound variable the first rendered partial with this key has. -/
+def bdOf (ts : List (Name × List Name × Option Name)) (name : Name) (args : List Name) : Option Name :=
+  match ts.find? (fun t => t.1 == name && t.2.1 == args) with
+  | some t => t.2.2
+  | none => none
+
+/-- Equal `render` keys (name, argument names) mean equal bound variables, i.e. equal static scopes. -/
+def boundFunctional (ts : List (Name × List Name × Option Name)) : Bool :=
+  ts.all fun t => bdOf ts t.1 t.2.1 == t.2.2
+
+/-- Decidable part of the weaker hypothesis: no `include` below a `render`/macro, every `include`d name is
+reached once and is not also rendered, the root is not a partial, equal render keys mean equal scopes.
+(Rendered partials may be reached any number of times.) -/
+def hyp2b (ns : Nodes) (tmpl : Name) : Bool :=
+  noDeadIncNodes ns false && decide (inclNamesNodes ns).Nodup &&
+  (inclNamesNodes ns).all (fun x => !(isoNamesNodes ns).contains x) &&
+  !(partNamesNodes ns).contains tmpl && boundFunctional (isoTriplesNodes ns)
+
 end LiquidVerif.Analysis
